@@ -966,3 +966,8 @@ TABLE["C09"] += [
 TABLE["C03"] += [B("submodule-declared-only-for-namespaces-with-own-content", {"A4"}, _SUBMOD_GUARD)]
 TABLE["C02"] += [B("type-copied-only-when-it-has-template-arguments", {"S7"}, _LAZY_COPY)]
 TABLE["C04"] += [B("type-copied-only-when-it-has-template-arguments", {"B8"}, _LAZY_COPY)]
+_REPARENT = (TI + "namespace.py", "    namespace.content = instantiated_content\n",
+             "    namespace.content = instantiated_content\n    for child in namespace.content:\n        child.parent = namespace\n")
+TABLE["C04"] += [B("rebuilt-content-reparented", {"B8"}, _REPARENT)]
+TABLE["C13"] += [B("rebuilt-content-reparented", {"P1"}, _REPARENT)]
+TABLE["C01"] += [B("rebuilt-content-reparented", {"G8"}, _REPARENT)]
